@@ -4,13 +4,30 @@
 # behaviour-preserving refactoring a negative control over all rules. Needs a scratch worktree of
 # /repo (argument 1); run after the checker has been rebuilt. Seeds that no rule reports are listed
 # in seeded/MISSED.txt, refactorings that still alarm in benign/ALARMS.txt (neither becomes a control).
-import json, os, re, subprocess, sys, glob
+import json, os, re, subprocess, sys, glob, threading, queue
+from concurrent.futures import ThreadPoolExecutor
+# argument 1: a scratch worktree of /repo; three more are created next to it (<wt>-2..4) and
+# removed again, so that four patches are evaluated at a time
 wt = sys.argv[1]
+WTS = [wt]
+for k in (2, 3, 4):
+    w = '%s-%d' % (wt, k)
+    subprocess.run(['git', '-C', '/repo', 'worktree', 'remove', '--force', w], capture_output=True)
+    subprocess.run(['rm', '-rf', w])
+    subprocess.run(['git', '-C', '/repo', 'worktree', 'add', '-q', '--detach', w, 'HEAD'], check=True)
+    WTS.append(w)
+pool = queue.Queue()
+for w in WTS:
+    pool.put(w)
 C = []
-QUICK = {'seed-r2-C17A','seed-r2-C17B','seed-r2-C08A','seed-r2-C14B','seed-r2-C05B','seed-r2-C12B','seed-r2-C12A','seed-r2-C20B','seed-r2-C13A','seed-r2-C19A','seed-r2-C19B','benign-R4-ref07','benign-R2-ref04','benign-R2-ref08','benign-R3-ref06','benign-R4-ref01','benign-R1-ref10'}
-missed, alarms = [], []
+QUICK = {'seed-r4-C04A','seed-r4-C11C','seed-r4-C02C','benign-b3-R3-ref07','benign-b3-R1-ref02','benign-b3-R3-ref05','seed-r2-C17A','seed-r2-C17B','seed-r2-C08A','seed-r2-C14B','seed-r2-C05B','seed-r2-C12B','seed-r2-C12A','seed-r2-C20B','seed-r2-C13A','seed-r2-C19A','seed-r2-C19B','benign-R4-ref07','benign-R2-ref04','benign-R2-ref08','benign-R3-ref06','benign-R4-ref01','benign-R1-ref10'}
+missed, alarms, offtarget = [], [], []
 def run(patch):
-    out = subprocess.run(['/verif/seeded/eval_patch.sh', wt, patch], capture_output=True, text=True).stdout
+    w = pool.get()
+    try:
+        out = subprocess.run(['/verif/seeded/eval_patch.sh', w, patch], capture_output=True, text=True).stdout
+    finally:
+        pool.put(w)
     fails = []
     for ln in out.splitlines():
         m = re.match(r'\s+\[(C\d\d)\] FAIL (\S+) (.*?) at \S+ \[\w+\]: ', ln)
@@ -18,15 +35,25 @@ def run(patch):
             fails.append((m.group(1), m.group(2), m.group(3)))
     err = 'ANALYSIS-ERROR in: none' not in out
     return fails, err, out
-for d in sorted(glob.glob('/verif/seeded/*/')):
+seed_patches = [d + 'patch.diff' for d in sorted(glob.glob('/verif/seeded/*/')) if os.path.exists(d + 'patch.diff')]
+benign_patches = sorted(glob.glob('/verif/benign/*.diff'))
+with ThreadPoolExecutor(max_workers=len(WTS)) as ex:
+    RES = dict(zip(seed_patches + benign_patches, ex.map(run, seed_patches + benign_patches)))
+for w in WTS[1:]:
+    subprocess.run(['git', '-C', '/repo', 'worktree', 'remove', '--force', w], capture_output=True)
+    subprocess.run(['rm', '-rf', w])
+for patch in seed_patches:
+    d = os.path.dirname(patch) + '/'
     name = os.path.basename(d.rstrip('/'))
-    patch = d + 'patch.diff'
-    if not os.path.exists(patch):
-        continue
-    fails, err, out = run(patch)
+    fails, err, out = RES[patch]
     if not fails:
         missed.append(name)
         continue
+    tm = re.search(r'(C\d\d)', name)
+    target = tm.group(1) if tm else ''
+    props = sorted(set(f[0] for f in fails))
+    if target and target not in props:
+        offtarget.append('%s: reported under %s, not under %s (%s)' % (name, ' '.join(props), target, '; '.join(sorted(set(f[1] for f in fails)))[:120]))
     exp, seen = [], set()
     for _, rule, cons in fails:
         base = re.sub(r'\(.*\)$', '', rule)
@@ -36,9 +63,9 @@ for d in sorted(glob.glob('/verif/seeded/*/')):
         exp.append({'rule': rule, 'construct': cons})
     C.append({'name': 'seed-' + name, 'kind': 'positive', 'patch': 'seeded/%s/patch.diff' % name, 'expect': exp[:8],
               'note': 'seeded change written by an independent sub-agent (breaks %s); see seeded/%s/SEED.md' % (name.replace('r2-', '')[:3], name)})
-for p in sorted(glob.glob('/verif/benign/*.diff')):
+for p in benign_patches:
     name = os.path.basename(p)[:-5]
-    fails, err, out = run(p)
+    fails, err, out = RES[p]
     if fails or err:
         alarms.append(name + ': ' + '; '.join(sorted(set(r + ' ' + c for _, r, c in fails)))[:300])
         continue
@@ -50,4 +77,5 @@ for c in C:
 json.dump(C, open('/verif/controls/corpus.json', 'w'), indent=1, ensure_ascii=False)
 open('/verif/seeded/MISSED.txt', 'w').write('\n'.join(missed) + '\n')
 open('/verif/benign/ALARMS.txt', 'w').write('\n'.join(alarms) + '\n')
-print(len(C), 'controls;', len(missed), 'seeds missed;', len(alarms), 'benign alarms')
+open('/verif/seeded/OFFTARGET.txt', 'w').write('\n'.join(offtarget) + '\n')
+print(len(C), 'controls;', len(missed), 'seeds missed;', len(offtarget), 'reported off target;', len(alarms), 'benign alarms')
